@@ -77,8 +77,8 @@ theorem dirMean_multi (a : Mat ℝ r c) (w : Vec ℝ c) (i : Fin r) (hc : c ≠ 
   rw [dif_neg hc]
   simp only [Vec.of_apply, transc_atan2, resRe_eq, resIm_eq, Complex.eta]
 
-/-- one-column branch: the column as is -/
-theorem dirMean_one (a : Mat ℝ r 1) (w : Vec ℝ 1) (i : Fin r) : dirMean a w i = a i 0 := by
+/-- one-column branch: the column, wrapped (the weight is not read) -/
+theorem dirMean_one (a : Mat ℝ r 1) (w : Vec ℝ 1) (i : Fin r) : dirMean a w i = wrap (a i 0) := by
   unfold dirMean
   rw [dif_pos rfl]
   rfl
